@@ -10,7 +10,7 @@ import (
 
 func newFrame(enc *Enc, p *Program, fn *ssa.Function, pfx string, top bool) *Frame {
 	f := &Frame{enc: enc, p: p, fn: fn, fname: p.fname(fn), pfx: pfx, top: top,
-		vals: map[ssa.Value]T{}, tuples: map[ssa.Value][]T{}, lvs: map[ssa.Value]*LV{},
+		vals: map[ssa.Value]T{}, tuples: map[ssa.Value][]T{}, structs: map[ssa.Value][]structLeaf{}, lvs: map[ssa.Value]*LV{},
 		outSt: map[*ssa.BasicBlock]State{}, outPath: map[*ssa.BasicBlock]T{}, edgePred: map[[2]int]T{},
 		params: map[string]T{}, paramTy: map[string]types.Type{}, iters: map[ssa.Value]*iterInfo{}, held: map[string]bool{}}
 	f.con = p.contracts[f.fname]
@@ -177,7 +177,16 @@ func (p *Program) verifyFunction(name string) (enc *Enc, err error) {
 	if con != nil {
 		tr := &Translator{f: f, cur: f.st, old: f.st, allocOld: alloc0}
 		for _, u := range con.Uses {
-			enc.extras = append(enc.extras, tr.useInstance(u)...)
+			func() {
+				defer func() {
+					if r := recover(); r != nil {
+						if _, ok := r.(trErr); !ok {
+							panic(r)
+						}
+					}
+				}()
+				enc.extras = append(enc.extras, tr.useInstance(u)...)
+			}()
 		}
 	}
 	if con != nil && con.HasAssigns {
@@ -206,12 +215,30 @@ func (p *Program) verifyFunction(name string) (enc *Enc, err error) {
 		f.st = outSt
 		// ghost effects declared by the contract are not re-derived here (ghost counters move only at calls)
 		for k, e := range con.Ensures {
-			tr := &Translator{f: f, env: env, cur: outSt, old: f.entrySt, allocOld: alloc0}
-			c := tr.boolExpr(e.Expr)
-			o := &Obl{Name: "post:" + clauseName(e, k), Class: "post", Func: name, Path: outPath, Cond: c, Pos: p.pos(fn.Pos()), Props: e.Props}
-			o.Extra = append(o.Extra, enc.extras...)
-			for _, u := range con.Uses {
-				o.Extra = append(o.Extra, tr.useInstance(u)...)
+			// one sub-goal per return statement: no merged (ite) exit state in the proof
+			o := &Obl{Name: "post:" + clauseName(e, k), Class: "post", Func: name, Path: outPath, Cond: True, Pos: p.pos(fn.Pos()), Props: e.Props}
+			for _, r := range f.rets {
+				renv := map[string]tv{}
+				for i, rv := range r.results {
+					renv[f.resultNames[i]] = tv{rv, f.resultTypes[i]}
+				}
+				tr := &Translator{f: f, env: renv, cur: r.st, old: f.entrySt, allocOld: alloc0}
+				c := tr.boolExpr(e.Expr)
+				sg := SubGoal{Path: r.path, Cond: c}
+				sg.Extra = append(sg.Extra, enc.extras...)
+				for _, u := range con.Uses {
+					func() {
+						defer func() {
+							if r := recover(); r != nil {
+								if _, ok := r.(trErr); !ok {
+									panic(r)
+								}
+							}
+						}()
+						sg.Extra = append(sg.Extra, tr.useInstance(u)...)
+					}()
+				}
+				o.Subs = append(o.Subs, sg)
 			}
 			enc.obls = append(enc.obls, o)
 		}
